@@ -379,7 +379,7 @@ structure SuppPubInfo where
 def SuppPubInfo.default : SuppPubInfo := ⟨0, ProtectedHeader.default, none⟩
 
 /-- `SuppPubInfo::from_cbor_value` -/
-def SuppPubInfo.fromValue (fuel : Nat) (v : Value) : Res SuppPubInfo :=
+def SuppPubInfo.fromValue (v : Value) : Res SuppPubInfo :=
   match tryAsArray v with
   | .ok a =>
     if Gen.SuppPubInfo_arityBad a.length then .err .unexpectedItem else
@@ -396,7 +396,7 @@ def SuppPubInfo.fromValue (fuel : Nat) (v : Value) : Res SuppPubInfo :=
     | .ok (other, a) =>
       match vremove a (Gen.SuppPubInfo_removes.getD 1 99) with
       | .ok (x1, a) =>
-        match ProtectedHeader.fromBstr fuel x1 with
+        match phFromBstr x1 with
         | .ok prot =>
           match vremove a (Gen.SuppPubInfo_removes.getD 2 99) with
           | .ok (x0, _) =>
@@ -457,7 +457,7 @@ def kdfTail : List Nat → List Value → List Bytes → Res (List Bytes × List
     | .panic p => .panic p
 
 /-- `CoseKdfContext::from_cbor_value` -/
-def CoseKdfContext.fromValue (fuel : Nat) (v : Value) : Res CoseKdfContext :=
+def CoseKdfContext.fromValue (v : Value) : Res CoseKdfContext :=
   match tryAsArray v with
   | .ok a =>
     if Gen.CoseKdfContext_arityBad a.length then .err .unexpectedItem else
@@ -466,7 +466,7 @@ def CoseKdfContext.fromValue (fuel : Nat) (v : Value) : Res CoseKdfContext :=
     | .ok (privRev, a) =>
       match vremove a (Gen.CoseKdfContext_removes.getD 0 99) with
       | .ok (x3, a) =>
-        match SuppPubInfo.fromValue fuel x3 with
+        match SuppPubInfo.fromValue x3 with
         | .ok supp =>
           match vremove a (Gen.CoseKdfContext_removes.getD 1 99) with
           | .ok (x2, a) =>
